@@ -234,7 +234,7 @@ pub fn c18_oracle(case: &ConvCase, exp: &Expected, obs: &Observation) -> Verdict
     }
     // the 100 must have reached the client before it sent any body byte (the scripted client
     // only sends the body after a message arrived, so: the first message is there at head_end)
-    if rq.expects_continue() && case.prog(0).touches_body() {
+    if rq.expects_continue() && case.prog(0).touches_body() && case.script.iter().any(|s| matches!(s, Step::AwaitMsgs(_))) {
         let head_end = crate::wire::render(&case.conv).ranges[0].head_end;
         if obs.sent_when_msg.first().map(|s| *s > head_end).unwrap_or(true) {
             return crate::runner::fail(format!("C18/{}/interim-late", class), format!("{:?}", obs.sent_when_msg));
